@@ -13,6 +13,12 @@ WRITERS = [
     ("SADD", "K", "m"), ("SREM", "K", "m"), ("SPOP", "K"), ("SMOVE", "K", "dst", "m"), ("SMOVE", "src", "K", "m"), ("SINTERSTORE", "K", "src"), ("SUNIONSTORE", "K", "src"),
     ("SDIFFSTORE", "K", "src"), ("ZADD", "K", "1", "m"), ("ZADD", "K", "XX", "5", "m"), ("ZINCRBY", "K", "1", "m"), ("ZREM", "K", "m"), ("ZREMRANGEBYRANK", "K", "0", "0"),
     ("ZREMRANGEBYSCORE", "K", "0", "9"), ("ZUNIONSTORE", "K", "1", "src"), ("ZINTERSTORE", "K", "1", "src"), ("ZCLEAR", "K"),
+    # writes that remove the key by leaving nothing: a *STORE whose result is empty deletes its destination; the last
+    # elements popped / trimmed / removed unlink the key
+    ("SINTERSTORE", "K", "nokey"), ("SUNIONSTORE", "K", "nokey"), ("SDIFFSTORE", "K", "nokey"), ("SDIFFSTORE", "K", "nokey", "K"),
+    ("ZUNIONSTORE", "K", "1", "nokey"), ("ZINTERSTORE", "K", "1", "nokey"), ("ZUNIONSTORE", "K", "2", "nokey", "nokey2"), ("ZINTERSTORE", "K", "2", "K", "nokey"),
+    ("LPOP", "K", "5"), ("RPOP", "K", "5"), ("LTRIM", "K", "5", "9"), ("LREM", "K", "0", "b"), ("SPOP", "K", "9"), ("SREM", "K", "m", "n"),
+    ("ZREM", "K", "m", "n"), ("ZREMRANGEBYRANK", "K", "0", "-1"), ("ZREMRANGEBYSCORE", "K", "-inf", "+inf"), ("HDEL", "K", "f", "g"),
 ]
 NONWRITERS = [("GET", "K"), ("EXISTS", "K"), ("TYPE", "K"), ("TTL", "K"), ("STRLEN", "K"), ("LRANGE", "K", "0", "-1"), ("HGETALL", "K"), ("SMEMBERS", "K"),
               ("ZCARD", "K"), ("SET", "unrelated", "v"), ("DEL", "unrelated"), ("KEYS", "*"), ("SCAN", "0")]
